@@ -1208,12 +1208,12 @@ class Interp:
                 return [TInt(i) if t else i for i in range(*[int(x) for x in a])]
             return rng
         if name == "enumerate":
-            return lambda it, start=0: [(i, x) for i, x in enumerate(I.iterate(it), start)]
+            return lambda it, start=0: iter([(i, x) for i, x in enumerate(I.iterate(it), start)])      # one-shot, like every iterator below
         if name == "zip":
             def zip_(*its, strict=False):
                 fin = [I.iterate(i) for i in its if not isinstance(i, LazyIter)]
                 if len(fin) == len(its):
-                    return list(zip(*fin))
+                    return iter(list(zip(*fin)))
                 if not fin:
                     raise AnalysisAbort("zip of unbounded iterators only")
                 n = min(len(f) for f in fin)
@@ -1224,7 +1224,7 @@ class Interp:
                     else:
                         cols.append(fin[k][:n])
                         k += 1
-                return list(zip(*cols))
+                return iter(list(zip(*cols)))
             return zip_
         if name == "sum":
             def summ(it, start=0):
@@ -1287,7 +1287,7 @@ class Interp:
                 return [vals[i] for i in order]
             return sorted_
         if name == "reversed":
-            return lambda it: list(reversed(I.iterate(it)))
+            return lambda it: iter(list(reversed(I.iterate(it))))
         if name == "getattr":
             def ga(o, n, *d):
                 try:
@@ -1330,9 +1330,9 @@ class Interp:
                 return I.builtin(type(v).__name__) if type(v).__name__ in ("int", "str", "float", "list", "tuple", "dict", "bool", "set") else BT(type(v).__name__, (type(v),), type(v))
             return ty
         if name == "map":
-            return lambda f, *its: [I.call(f, list(xs), {}) for xs in zip(*[I.iterate(i) for i in its])]
+            return lambda f, *its: iter([I.call(f, list(xs), {}) for xs in zip(*[I.iterate(i) for i in its])])
         if name == "filter":
-            return lambda f, it: [x for x in I.iterate(it) if (I.truth(I.call(f, [x], {})) if f is not None else I.truth(x))]
+            return lambda f, it: iter([x for x in I.iterate(it) if (I.truth(I.call(f, [x], {})) if f is not None else I.truth(x))])
         if name == "divmod":
             def dm(a, b):
                 if isinstance(a, TInt) or isinstance(b, TInt):
